@@ -118,7 +118,7 @@ func newC17World(cf c17Cfg) *c17World {
 	w := &c17World{cfg: cf, root: cf.scheme + "://sp.example.com", t0: samlgen.T0, delay: saml.MaxIssueDelay, memo: map[string]*c17Reply{}}
 	w.notchT = []time.Time{w.t0, w.t0.Add(w.delay - time.Second), w.t0.Add(w.delay + time.Second), w.t0.Add(2*w.delay + 2*time.Second)}
 	w.users = []string{"alice", "bob", "carol"}
-	w.urls = []string{"/app/one?x=1", "/app/two", "/app/three?y=2&z=%20q"}
+	w.urls = []string{"/app/one?x=1", "/%2Fother.example/a%2Fb%3Fc", "/app/three?y=2&z=%20q"} // the second one has reserved characters percent-encoded in its path: it must come back verbatim
 	kp := samlgen.Key(cf.key)
 	opts := samlsp.Options{URL: harness.MustURL(w.root), Key: kp.Key, Certificate: kp.Cert, IDPMetadata: harness.IDPMetadata("meta1", "", "")}
 	switch cf.rsf {
